@@ -158,13 +158,34 @@ def run(ctx):
                     continue
                 # normalise to  SIZE op LIMIT
                 op = rv[1] if lb2 else {"Gt": "Lt", "Ge": "Le", "Lt": "Gt", "Le": "Ge"}[rv[1]]
-                limit_cmp.append((p[0], op in ("Le", "Lt"), line))
-        cond_b = bool(with_len) and all(any(runs_only_when(lb, l, fits, d) for (l, fits, _) in limit_cmp) for d in with_len)
+                # which frame's encoding_size() is measured on the SIZE side
+                size_op = rv[2] if lb2 else rv[3]
+                measured = set()
+                for pl_ in deep_places(lb, size_op, 6):
+                    for og_ in lb.trace_local(pl_[0]):
+                        if og_[0] == "call" and re.search(r"encoding_size$", callee(og_[2])) and og_[2]["args"]:
+                            for q_ in deep_places(lb, og_[2]["args"][0], 3):
+                                for og2_ in lb.trace_local(q_[0]):
+                                    if og2_[0] == "call" and callee(og2_[2]).endswith("DatagramFrame::new"):
+                                        measured.add(og2_[1])     # identity of a frame value = the block of its constructor call
+                limit_cmp.append((p[0], op in ("Le", "Lt"), line, measured))
+        # the frame each with-length dump writes
+        dumped = {}
+        for d in with_len:
+            nm_ = set()
+            for pl_ in deep_places(lb, lb.term(d)["args"][0], 6):
+                if lb.local_ty(pl_[0]).strip().endswith("DatagramFrame"):
+                    for og2_ in lb.trace_local(pl_[0]):
+                        if og2_[0] == "call" and callee(og2_[2]).endswith("DatagramFrame::new"):
+                            nm_.add(og2_[1])
+            dumped[d] = nm_
+        cond_b = bool(with_len) and all(any(runs_only_when(lb, l, fits, d) and (not dumped[d] or not meas or (meas & dumped[d]))
+                                            for (l, fits, _, meas) in limit_cmp) for d in with_len)
         ctx.floor("R5", "with-length dump sites in the loader", len(with_len), 1)
         ctx.ob("R5", "%s|an admitted datagram is never encoded larger than the peer's limit" % lb.short, cond_a or cond_b, lb.where(),
                "admission comparisons %s (measure an encoded size: %s); with-length dumps at %s, comparisons with the peer's limit at lines %s "
-               "(every with-length dump guarded: %s) — admission bounds only the shortest form (1 + len), so unless the loader "
+               "(every with-length dump guarded by a comparison that measures the frame it dumps: %s) — admission bounds only the shortest form (1 + len), so unless the loader "
                "checks the limit before adding the length varint an admitted datagram leaves as a frame of limit+1/+2 bytes and "
-               "the peer answers PROTOCOL_VIOLATION" % (adm, cond_a, with_len, [x[2] for x in limit_cmp], cond_b))
+               "the peer answers PROTOCOL_VIOLATION" % (adm, cond_a, ["bb%d:%s" % (d, sorted(dumped[d])) for d in with_len], ["L%s:%s" % (x[2], sorted(x[3])) for x in limit_cmp], cond_b))
     ctx.note("R3/R4: the sender admits 1 + len <= limit but may then encode a length varint; the receiver measures "
              "encoding_size() + len: boundary sizes accepted by the sender can be rejected by an identical peer (recorded as a note)")
